@@ -7,19 +7,29 @@ package gtab
 //@ func (info *Info) FindLookups(lang language.Tag, includeFeature map[string]bool) (ll []LookupIndex)   props: C15 C02 C16
 //@   requires info != nil ==> len(info.FeatureList) <= 65535 && len(info.LookupList) <= 65535 && forall k int :: 0 <= k && k < len(info.FeatureList) ==> info.FeatureList[k] != nil
 //@   ensures forall i int :: 0 <= i && i < len(ll) ==> ll[i] < len(info.LookupList)
+//@   ensures forall a int :: forall b int :: 0 <= a && a < b && b < len(ll) ==> ll[a] < ll[b]   // ascending, no duplicates
+//@   return_assert forall i int :: 0 <= i && i < len(ll) ==> has(includeLookup, ll[i])   // only lookups of the required / enabled features
+//@   return_assert forall l uint16 :: has(includeLookup, l) && l < len(info.LookupList) ==> exists i int :: 0 <= i && i < len(ll) && ll[i] == l   // all of them
+//@   return_assert features.Required < len(info.FeatureList) ==> forall k int :: 0 <= k && k < len(info.FeatureList[features.Required].Lookups) ==> has(includeLookup, info.FeatureList[features.Required].Lookups[k])   // the required feature is always included
 //@   modifies nothing
 //@   loop 0
 //@     invariant len(tags) == nseen(info.ScriptList) && fresh(tags) && info != nil && len(info.ScriptList) > 0
 //@     exit_assert len(tags) == len(info.ScriptList)
 //@   loop 1
 //@     invariant includeLookup != nil && fresh(includeLookup)
+//@     invariant forall k int :: 0 <= k && k < iter ==> has(includeLookup, feature.Lookups[k])
 //@   loop 2
 //@     invariant includeLookup != nil && fresh(includeLookup) && numFeatures == len(info.FeatureList)
+//@     invariant features.Required < len(info.FeatureList) ==> forall k int :: 0 <= k && k < len(info.FeatureList[features.Required].Lookups) ==> has(includeLookup, info.FeatureList[features.Required].Lookups[k])
 //@   loop 3
 //@     invariant includeLookup != nil && fresh(includeLookup) && numFeatures == len(info.FeatureList)
+//@     invariant features.Required < len(info.FeatureList) ==> forall k int :: 0 <= k && k < len(info.FeatureList[features.Required].Lookups) ==> has(includeLookup, info.FeatureList[features.Required].Lookups[k])
 //@   loop 4
 //@     invariant (isnil(ll) || fresh(ll)) && numLookups == len(info.LookupList)
-//@     invariant forall i int :: 0 <= i && i < len(ll) ==> ll[i] < len(info.LookupList)
+//@     invariant forall i int :: 0 <= i && i < len(ll) ==> ll[i] < len(info.LookupList) && seen(includeLookup, ll[i])
+//@     invariant forall a int :: forall b int :: 0 <= a && a < b && b < len(ll) ==> ll[a] != ll[b]
+//@     invariant forall l uint16 :: seen(includeLookup, l) && l < len(info.LookupList) ==> exists i int :: hint(i, len(ll) - 1) && 0 <= i && i < len(ll) && ll[i] == l
+//@     invariant forall l uint16 :: seen(includeLookup, l) ==> has(includeLookup, l)
 
 // Lookup flags (OpenType chapter 2, "lookupFlag bit enumeration"): 0x0002
 // ignore base glyphs, 0x0004 ignore ligatures, 0x0008 ignore marks (supersedes
